@@ -259,12 +259,16 @@ CHECKS["C01"]["rule"] = (
     "start, all states in bounds (raw coordinates), dense validity (invalid runs <= 2r at r/20 sampling), strict re-check of every consecutive pair "
     "with the harness's own k/n loop for tree/roadmap planners. Non-trivial = a solution whose straight start-goal motion is invalid, or an "
     "abnormal scenario; distinct = consumed byte prefix. "
-    "Companion C01B (bespoke fixtures, 1200 / 16000 cases): (38%) QRRT / QRRTStar / QMP / QMPStar on real bundle sequences R2<SE2, R3<SE3, "
-    "R2<R^n, R2<R^m<R^n, relaxation R2<R2 (a lower level sees all or a subset of the obstacles); (15%) VFRRT on R^n with a generated vector field "
-    "(drift, sink, rotation, none) and exploration / lambda / update-frequency settings; (15%) TSRRT on R^n with the (x,y) task space and a lift that "
-    "may fail; (31%) ST-RRT* on R^2 x time with a speed limit, static obstacles and a moving ball, bounded or unbounded time, generated rewiring / batch / "
+    "Companion C01B (bespoke fixtures, 1200 / 16000 cases): (31%) QRRT / QRRTStar / QMP / QMPStar on real bundle sequences R2<SE2, R3<SE3, "
+    "R2<R^n, R2<R^m<R^n, relaxation R2<R2 (a lower level sees all or a subset of the obstacles); (12%) VFRRT on R^n with a generated vector field "
+    "(drift, sink, rotation, none) and exploration / lambda / update-frequency settings; (12%) TSRRT on R^n with the (x,y) task space and a lift that "
+    "may fail; (25%) ST-RRT* on R^2 x time with a speed limit, static obstacles and a moving ball, bounded or unbounded time, generated rewiring / batch / "
     "time-bound-factor settings; each under a history solve [-> continued solve | clear + solve]* with the same oracle (for ST-RRT*: every consecutive "
-    "pair passes the user's motion rule again, time within bounds, start at t = 0).")
+    "pair passes the user's motion rule again, time within bounds, start at t = 0); (12%) LightningRetrieveRepair on a generated experience database "
+    "(1..4 paths recorded 'in another environment'); (6%) XXL with a grid decomposition of the position. "
+    "Companion C01P (configuration coverage, 1600 / 24000 cases; the C01 harness built with -DVF_C01P): every case sets planner parameters (each "
+    "declared switch / numeric parameter with probability 1/2), a third of the normal single-goal problems have the goal walled in (valid but unreachable), "
+    "59% of the budgets come from the top of the range: non-default configurations under long searches that end without an exact solution.")
 
 CHECKS["C03"] = dict(
     src="harness/C03_history.cpp",
